@@ -28,7 +28,8 @@ def run(prop, tier):
     p = 2 if tier == "quick" else 3
     if prop == "C06":
         sjobs = [dict(src="harness/sched_ipc.c", ipc=True, args=["sem", "-p", p, "--", 3, 1]), dict(src="harness/sched_ipc.c", ipc=True, args=["sem", "-p", p, "--", 3, 2]),
-                 dict(src="harness/sched_ipc.c", ipc=True, args=["sem", "-p", p + 1, "--", 2, 1]), dict(src="harness/sched_ipc.c", ipc=True, args=["semrace", "-p", p + 1])]
+                 dict(src="harness/sched_ipc.c", ipc=True, args=["sem", "-p", p + 1, "--", 2, 1]), dict(src="harness/sched_ipc.c", ipc=True, args=["semrace", "-p", p + 1]),
+                 dict(src="harness/sched_ipc.c", ipc=True, args=["semcreate", "-p", p])]
     else:
         sjobs = [dict(src="harness/sched_ipc.c", ipc=True, args=["shmlock", "-p", p, "--", 2]), dict(src="harness/sched_ipc.c", ipc=True, args=["shmlock", "-p", 2, "--", 3]),
                  dict(src="harness/sched_ipc.c", ipc=True, args=["shmcreate", "-p", p, "--", 2]), dict(src="harness/sched_ipc.c", ipc=True, args=["shmrace", "-p", p + 1])]
